@@ -272,7 +272,11 @@ Definition sa_step (mode : ttlmode) (t u : Z) (orig : list dent) (acc : list den
   let '(cur, fresh) := acc in
   match find_de a orig with
   | Some _ => (upd_existing mode a t u cur, fresh)
-  | None => (cur, fresh ++ [mkD a t u])
+  | None =>
+      match find_de a fresh with
+      | Some _ => (cur, upd_existing mode a t u fresh)
+      | None => (cur, fresh ++ [mkD a t u])
+      end
   end.
 
 Definition in_rec (x : Z) (l : list dent) : bool := zmem x (map da l).
@@ -284,31 +288,75 @@ Proof.
   - destruct (zmem x (map da l)) eqn:Zm; [|reflexivity]. apply find_de_zmem in Zm. destruct Zm as [e Fe]. congruence.
 Qed.
 
+Lemma upd1_fresh mode a t u : upd1 mode a t u (mkD a t u) = mkD a t u.
+Proof. destruct mode; cbn [upd1 dttl dexp]; [reflexivity|]. now rewrite !Z.ltb_irrefl. Qed.
+
+Lemma upd_existing_id mode a t u l :
+  (forall e, In e l -> da e = a -> e = mkD a t u) -> upd_existing mode a t u l = l.
+Proof.
+  induction l as [|e r IH]; intros H; [reflexivity|]. rewrite upd_existing_cons.
+  destruct (Z.eqb_spec (da e) a) as [E|E].
+  - rewrite (H e (or_introl eq_refl) E). now rewrite upd1_fresh.
+  - f_equal. apply IH. intros e' He'. apply H. now right.
+Qed.
+
+(* the entries the loop has created so far: one per new address, all (a, t, u) *)
+Definition fresh_ok (t u : Z) (orig fresh : list dent) : Prop :=
+  (forall e, In e fresh -> e = mkD (da e) t u /\ in_rec (da e) orig = false) /\ NoDup (map da fresh).
+
 Lemma sa_fold mode t u orig addrs : forall cur0 fresh0,
+  fresh_ok t u orig fresh0 ->
   let '(cur, fresh) := fold_left (sa_step mode t u orig) addrs (cur0, fresh0) in
   map da cur = map da cur0 /\
   (forall x, find_de x cur =
              if zmem x addrs && in_rec x orig then option_map (upd1 mode x t u) (find_de x cur0) else find_de x cur0) /\
-  fresh = fresh0 ++ map (fun a => mkD a t u) (filter (fun a => negb (in_rec a orig)) addrs).
+  fresh_ok t u orig fresh /\
+  (forall x, find_de x fresh =
+             if zmem x addrs && negb (in_rec x orig) then Some (mkD x t u) else find_de x fresh0).
 Proof.
-  induction addrs as [|a r IH]; intros cur0 fresh0; cbn [fold_left].
-  - cbn [filter map]. rewrite app_nil_r. split; [reflexivity|split; [|reflexivity]]. intros x. reflexivity.
-  - unfold sa_step at 2. cbn [filter]. rewrite (in_rec_find a orig). destruct (find_de a orig) as [e0|] eqn:F; cbn [negb].
-    + specialize (IH (upd_existing mode a t u cur0) fresh0).
+  induction addrs as [|a r IH]; intros cur0 fresh0 HF; cbn [fold_left].
+  - split; [reflexivity|split; [|split; [exact HF|]]]; intros x; reflexivity.
+  - unfold sa_step at 2. destruct (find_de a orig) as [e0|] eqn:F.
+    + specialize (IH (upd_existing mode a t u cur0) fresh0 HF).
       destruct (fold_left (sa_step mode t u orig) r (upd_existing mode a t u cur0, fresh0)) as [cur fresh].
-      destruct IH as [H1 [H2 H3]]. split; [now rewrite H1, map_da_upd_existing|split; [|exact H3]].
-      intros x. rewrite H2, find_upd_existing. unfold zmem. cbn [existsb]. fold (zmem x r).
-      destruct (Z.eqb_spec x a) as [->|Hx]; cbn [orb].
-      * rewrite (in_rec_find a orig), F. cbn [andb]. rewrite andb_true_r.
-        destruct (zmem a r); [|reflexivity]. destruct (find_de a cur0); cbn [option_map]; [now rewrite upd1_idem|reflexivity].
-      * reflexivity.
-    + specialize (IH cur0 (fresh0 ++ [mkD a t u])).
-      destruct (fold_left (sa_step mode t u orig) r (cur0, fresh0 ++ [mkD a t u])) as [cur fresh].
-      destruct IH as [H1 [H2 H3]]. split; [exact H1|split].
-      * intros x. rewrite H2. unfold zmem. cbn [existsb]. fold (zmem x r).
+      destruct IH as [H1 [H2 [H3 H4]]]. split; [now rewrite H1, map_da_upd_existing|split; [|split; [exact H3|]]].
+      * intros x. rewrite H2, find_upd_existing. unfold zmem. cbn [existsb]. fold (zmem x r).
         destruct (Z.eqb_spec x a) as [->|Hx]; cbn [orb]; [|reflexivity].
-        rewrite (in_rec_find a orig), F. now rewrite !andb_false_r.
-      * rewrite H3. cbn [map]. rewrite <- app_assoc. reflexivity.
+        rewrite (in_rec_find a orig), F. cbn [andb]. rewrite andb_true_r.
+        destruct (zmem a r); [|reflexivity]. destruct (find_de a cur0); cbn [option_map]; [now rewrite upd1_idem|reflexivity].
+      * intros x. rewrite H4. unfold zmem. cbn [existsb]. fold (zmem x r).
+        destruct (Z.eqb_spec x a) as [->|Hx]; cbn [orb]; [|reflexivity].
+        rewrite (in_rec_find a orig), F. cbn [negb]. now rewrite !andb_false_r.
+    + destruct (find_de a fresh0) as [e1|] eqn:F1.
+      * assert (Eid : upd_existing mode a t u fresh0 = fresh0).
+        { apply upd_existing_id. intros e He Ha. destruct (proj1 HF e He) as [E _]. now rewrite <- Ha. }
+        rewrite Eid. specialize (IH cur0 fresh0 HF).
+        destruct (fold_left (sa_step mode t u orig) r (cur0, fresh0)) as [cur fresh].
+        destruct IH as [H1 [H2 [H3 H4]]]. split; [exact H1|split; [|split; [exact H3|]]].
+        -- intros x. rewrite H2. unfold zmem. cbn [existsb]. fold (zmem x r).
+           destruct (Z.eqb_spec x a) as [->|Hx]; cbn [orb]; [|reflexivity].
+           rewrite (in_rec_find a orig), F. now rewrite !andb_false_r.
+        -- intros x. rewrite H4. unfold zmem. cbn [existsb]. fold (zmem x r).
+           destruct (Z.eqb_spec x a) as [->|Hx]; cbn [orb]; [|reflexivity].
+           rewrite (in_rec_find a orig), F. cbn [negb andb]. rewrite andb_true_r.
+           destruct (zmem a r); [reflexivity|]. rewrite F1. apply find_de_some in F1. destruct F1 as [Hin Ha].
+           destruct (proj1 HF e1 Hin) as [E _]. now rewrite E, Ha.
+      * assert (HF1 : fresh_ok t u orig (fresh0 ++ [mkD a t u])).
+        { destruct HF as [Hf Hn]. split.
+          - intros e He. apply in_app_or in He. destruct He as [He|[<-|[]]]; [now apply Hf|]. cbn [da].
+            split; [reflexivity|]. now rewrite (in_rec_find a orig), F.
+          - rewrite map_app. cbn [map da]. apply nodup_snoc; [exact Hn|]. intros Hin. apply in_map_iff in Hin.
+            destruct Hin as [e [Ha He]]. exact (find_de_none _ _ F1 e He Ha). }
+        specialize (IH cur0 (fresh0 ++ [mkD a t u]) HF1).
+        destruct (fold_left (sa_step mode t u orig) r (cur0, fresh0 ++ [mkD a t u])) as [cur fresh].
+        destruct IH as [H1 [H2 [H3 H4]]]. split; [exact H1|split; [|split; [exact H3|]]].
+        -- intros x. rewrite H2. unfold zmem. cbn [existsb]. fold (zmem x r).
+           destruct (Z.eqb_spec x a) as [->|Hx]; cbn [orb]; [|reflexivity].
+           rewrite (in_rec_find a orig), F. now rewrite !andb_false_r.
+        -- intros x. rewrite H4, find_de_app. unfold zmem. cbn [existsb]. fold (zmem x r). rewrite find_de_cons. cbn [da find_de find].
+           destruct (Z.eqb_spec x a) as [->|Hx]; cbn [orb].
+           ++ rewrite (in_rec_find a orig), F, F1, Z.eqb_refl. cbn [negb andb]. now destruct (zmem a r).
+           ++ destruct (Z.eqb_spec a x); [congruence|]. now destruct (find_de x fresh0).
 Qed.
 
 Lemma find_de_fresh t u x l :
